@@ -375,6 +375,8 @@ pub fn spaces(tier: Tier, _seed: u64) -> Vec<Box<dyn Space>> {
     v.push(crate::props::gprog::grid(0, false, false, prog_oracle));
     v.push(fault_space(prog_oracle));
     v.push(arity_space());
+    // programs spread over files: include chains (the no-panic part of C18's chain oracle)
+    v.push(Box::new(crate::props::c18::Chains { max_depth: if tier.is_thorough() { 70 } else { 20 } }));
     v.push(crate::props::c01::tok_space(true, 3, Render::Spaced, text_oracle));
     v.push(wider_space(false, 1));
     v.push(crate::props::gprog::spines(2, false, true, false, prog_oracle));
